@@ -90,6 +90,7 @@ class Analyzer:
             before = {k: set(v) for k, v in self.comps.items()}
             self.edges, self.kinds, self.sites = set(), {}, {}
             self.alias_links, self.mutated = [], set()
+            self.unnamed_log_sinks, self.narrow_handlers = set(), set()
             for m in self.ix.mods.values():
                 ModuleWalker(self, m).run()
             for f in self.ix.funcs:
@@ -594,6 +595,8 @@ class Walker:
                     # a handler for everything (`except Exception as exc`, bare) may see an exception whose text
                     # embeds any argument given to third-party code in the try body; a handler that names specific
                     # classes receives library-authored text (assumption, see design/C12.md; validated with fakes)
+                    if not _broad_handler(h.type):
+                        self.an.narrow_handlers.add(f"{self.f.mod.rel}::{self.f.qual}: except {ast.unparse(h.type)} as {h.name}")
                     self.store_name(h.name, s_whole(got) if _broad_handler(h.type) else {})
                 self.stmts(h.body)
             self.stmts(s.orelse)
@@ -1038,10 +1041,31 @@ class Walker:
                            {k.arg: self.alias_capable(k.value) for k in e.keywords if k.arg is not None}, True, True)
 
         # logging calls are sinks
-        if isinstance(fn, ast.Attribute) and fn.attr in LOG_METHODS and _is_logger(fn.value):
-            # the logger object itself carries data into every record (LoggerAdapter extras: host, port, uid)
-            self.sink("log", e, allargs | s_flat(self.shape(fn.value)))
-            return {}
+        if isinstance(fn, ast.Attribute) and fn.attr in LOG_METHODS:
+            # every `<anything>.debug/info/warning/…(…)` is a log sink, whatever the receiver is called
+            # (`log = self.logger; log.debug(x)`, `logging.getLogger("scrapli").info(x)`, `logging.warning(x)`);
+            # the only receivers exempted are ones with a KNOWN non-logger light type. Receivers not recognised by
+            # name are counted (an.unnamed_log_sinks) so that a reviewer sees them.
+            tags = self.recv_tags(fn.value)
+            known_other = bool(tags) and all(t[0] in ("pkg", "pkgcls", "data", "super") for t in tags) and not _is_logger(fn.value)
+            if not known_other:
+                if not _is_logger(fn.value):
+                    self.an.unnamed_log_sinks.add(f"{self.f.mod.rel}:{e.lineno}")
+                # the logger object itself carries data into every record (LoggerAdapter extras: host, port, uid)
+                self.sink("log", e, allargs | s_flat(self.shape(fn.value)))
+                return {}
+        # other ways of putting text in front of a user: advisory sinks (not log records / repr / exception text)
+        out_name = None
+        if isinstance(fn, ast.Name) and fn.id in ("print", "warn") and self.scope_of(fn.id) is None:
+            out_name = fn.id
+        elif isinstance(fn, ast.Attribute) and fn.attr == "warn" and isinstance(fn.value, ast.Name) and fn.value.id == "warnings":
+            out_name = "warn"
+        elif (isinstance(fn, ast.Attribute) and fn.attr in ("write", "writelines") and isinstance(fn.value, ast.Attribute)
+              and fn.value.attr in ("stdout", "stderr", "__stdout__", "__stderr__") and isinstance(fn.value.value, ast.Name)
+              and fn.value.value.id == "sys"):
+            out_name = "stdio"
+        if out_name:
+            self.sink("arepr", e, allargs, label=f"{out_name}:{self.f.qual}")
 
         if isinstance(fn, ast.Name):
             name = fn.id
